@@ -15,6 +15,7 @@ class Ctx:
 
   def __init__(self, repo: str = None, expand=False):
     self.p = Project(repo, expand=expand)
+    self.p.ctx = self
     self.types = Types(self.p)
     from fdlstatic.rules import sigrules  # pylint: disable=g-import-not-at-top
     sigrules.register_kind_constants(self.p)
@@ -67,6 +68,15 @@ class Ctx:
       sites.setdefault(q, []).append(c)
     out = {}
     own = f.local_names()
+    # loop variables of loops around a call are per-call data: parameters
+    # proper, not closure variables
+    per_call = set()
+    for lp in walk_function(f.node):
+      if isinstance(lp, (ast.For, ast.AsyncFor)) and any(
+          c is x for cs in sites.values() for c in cs for x in ast.walk(lp)):
+        per_call |= {x.id for x in ast.walk(lp.target)
+                     if isinstance(x, ast.Name)}
+    own = own - per_call
     for q, calls in sites.items():
       h = self.p.funcs[q]
       bounds = [self.bound_args(c, f) for c in calls]
